@@ -191,10 +191,43 @@ def deferred(acc):
     """Deferred[...] on a module that is not imported when the annotation is created."""
     d = tempfile.mkdtemp(prefix="vt_c13_")
     modname = f"vt_deferred_{os.getpid()}"
+    pkg = f"vt_deferredpkg_{os.getpid()}"
     try:
         with open(os.path.join(d, modname + ".py"), "w") as f:
             f.write("class Base:\n    pass\n\nclass Derived(Base):\n    pass\n\nclass Other:\n    pass\n")
+        # a package: the target class in one module, a subclass in a sibling module, one re-exported at top level
+        os.mkdir(os.path.join(d, pkg))
+        with open(os.path.join(d, pkg, "__init__.py"), "w") as f:
+            f.write("")
+        with open(os.path.join(d, pkg, "base.py"), "w") as f:
+            f.write("class Oven:\n    pass\n\nclass Toaster(Oven):\n    pass\n")
+        with open(os.path.join(d, pkg, "other.py"), "w") as f:
+            f.write("from .base import Oven\n\nclass Kiln(Oven):\n    pass\n\nclass Fridge:\n    pass\n")
         sys.path.insert(0, d)
+        assert pkg not in sys.modules
+        TP = Deferred[f"{pkg}.base.Oven"]
+        other = importlib.import_module(f"{pkg}.other")
+        base = importlib.import_module(f"{pkg}.base")
+        for C, exp in ((base.Oven, True), (base.Toaster, True), (other.Kiln, True), (other.Fridge, False), (int, False)):
+            acc.count("evaluations")
+            got = subclasscheck(C, TP)
+            if got is not exp:
+                acc.violation({"deferred": "package", "class": C.__name__}, "deferred-vs-meaning", {"expected": exp, "got": got})
+            if C is not int:
+                ovp = Ovld()
+
+                def fp(x: TP):
+                    return "T"
+
+                def gp(x: object):
+                    return "O"
+
+                ovp.register(fp)
+                ovp.register(gp, priority=-1)
+                acc.count("evaluations")
+                r = ovp(C())
+                if (r == "T") is not exp:
+                    acc.violation({"deferred": "package-dispatch", "class": C.__name__}, "deferred-dispatch-vs-meaning", {"expected": exp, "got": r})
         assert modname not in sys.modules
         T = Deferred[f"{modname}.Base"]
         for phase in ("before-import", "after-import"):
@@ -235,6 +268,8 @@ def deferred(acc):
     finally:
         sys.path.remove(d)
         sys.modules.pop(modname, None)
+        for k in [k for k in sys.modules if k.startswith(pkg)]:
+            sys.modules.pop(k, None)
         import shutil
 
         shutil.rmtree(d, ignore_errors=True)
